@@ -662,4 +662,38 @@ example : ((runTasks exW id (fun _ => Cell.fresh) (generateIncremental [[0, 1], 
            (runTasks exW id (fun _ => Cell.fresh) (generateIncremental [[0, 1], [3]] (some 2) 5) 5).broker.inst 0) =
           (some (.atom 3), some (.atom 0), none) := by decide
 
+/-! ### a loaded archive through the incremental / pooled drivers -/
+
+/-- `archive_dep_pruned` lifted to one sub-graph of an incremental / pooled evaluation of a loaded archive: when the broker the
+task runs on already holds `c` (a key of the sub-graph), no dependency `d` of `c` is evaluated by that task — its value, its
+missing-dependency report and the failures caused by it stay what they were (its body is never invoked) -/
+theorem archive_task_dep_untouched (pick : List Comp → List Comp) (deps : Comp → List Comp) (h : Heap) (t : Task)
+    (hk : t.1.Nodup) (c : Comp) (hc : c ∈ t.1) (hp : present (h t.2).broker.inst c = true) (d : Comp) (hd : d ∈ deps c) :
+    (runTaskArchive w pick deps h t t.2).broker.inst d = (h t.2).broker.inst d ∧
+    (runTaskArchive w pick deps h t t.2).broker.missing d = (h t.2).broker.missing d ∧
+    excOf (runTaskArchive w pick deps h t t.2).broker d = excOf (h t.2).broker d := by
+  unfold runTaskArchive
+  cases hpr : archivePrune (h t.2).broker.inst (subDict deps t.1) with
+  | none => exact ⟨rfl, rfl, rfl⟩
+  | some g' =>
+    simp only []
+    cases hto : toposort pick g' with
+    | none => exact ⟨rfl, rfl, rfl⟩
+    | some o =>
+      simp only [upd, if_true]
+      have hkeys : (subDict deps t.1).keys.Nodup := by
+        have : (subDict deps t.1).keys = t.1 := by simp [subDict, Graph.keys, List.map_map, Function.comp_def]
+        rw [this]; exact hk
+      have hmem : (c, deps c) ∈ subDict deps t.1 := List.mem_map.mpr ⟨c, hc, rfl⟩
+      have hnk : d ∉ g'.keys := archive_dep_pruned (h t.2).broker.inst (subDict deps t.1) g' hkeys hpr c (deps c) hmem hp d hd
+      have hne : d ∉ evald (fun x => g'.keys.contains x) o := by
+        intro m
+        have := (List.mem_filter.mp m).2
+        exact hnk (by simpa using this)
+      exact ⟨run_inst_const w _ _ o _ d hne, run_missing_const w _ _ o _ d hne, run_excOf_const w _ _ o _ d hne⟩
+
+-- a loaded archive holding 1 (which depends on 0): the task on sub-graph {0,1} leaves 0 unevaluated; without the archive value 0 is evaluated
+example : ((runTaskArchive exW id (fun c => if c = 1 then [0] else []) (fun _ => ⟨Broker.seeded (fun c => if c = 1 then some (.atom 9) else none), false⟩) ([0, 1], 0) 0).broker.inst 0,
+           (runTaskArchive exW id (fun c => if c = 1 then [0] else []) (fun _ => Cell.fresh) ([0, 1], 0) 0).broker.inst 0) = (none, some (.atom 0)) := by decide
+
 end IV.Dr
